@@ -37,6 +37,10 @@ import (
 )
 
 func TestMain(m *testing.M) {
+	if jf := os.Getenv("VERIF_C10_BULKJOB"); jf != "" {
+		bulkChildMain(jf)
+		return
+	}
 	if jf := os.Getenv("VERIF_C10_JOB"); jf != "" {
 		childMain(jf)
 		return
